@@ -435,8 +435,10 @@ pub fn hazard_program(rng: &mut Rng, o: HazardOpts) -> Vec<u8> {
     if let Some(i) = o.irq {
         if i.enable_key {
             if i.enable_by_store {
-                // LD R0,#1 ; ST (0xF9),R0 -- no read of the status register involved
-                p.ld_imm(0, 1);
+                // LD R0,#v ; ST (0xF9),R0 -- no read of the status register involved; v has bit 0 set
+                // and sometimes other enable bits of the mask as well
+                let v = if rng.chance(1, 3) { 1 | (rng.u8() & 0x3E) } else { 1 };
+                p.ld_imm(0, v);
                 p.st_abs(0xF9, 0);
             } else {
                 p.two(OP2_BITS, Dst::Abs(0xF9), Src::Imm(1));
@@ -811,6 +813,23 @@ pub fn form_case_setup(rng: &mut Rng, b1: u8, b2: Option<u8>, f: u8) -> Setup {
     regs[3] = at;
     regs[4] = (regs[4] & 0xF0) | (f & 0x0F);
     regs[5] = valid_sp(rng, 0);
+    let mut inputs = [rng.u8(), rng.u8(), rng.u8(), rng.u8()];
+    if rng.chance(1, 8) {
+        // the instruction sits in the input registers 0xFC..0xFF (legal: they are readable bus
+        // addresses); its operand bytes follow there and wrap around to RAM address 0
+        let len = pos + 2 - at as usize;
+        let insn: Vec<u8> = (0..len).map(|i| bytes[(at as usize + i).min(244)]).collect();
+        let start = 0xFCu8 + rng.below(4) as u8;
+        for (i, b) in insn.iter().enumerate() {
+            let a = start.wrapping_add(i as u8);
+            if a >= 0xFC {
+                inputs[(a - 0xFC) as usize] = *b;
+            } else if (a as usize) < 240 {
+                bytes[a as usize] = *b;
+            }
+        }
+        regs[3] = start;
+    }
     bytes.truncate(240);
-    Setup { image: Image { bytes, stack: 0, limit: Some(0xFF), keep_limit: false }, regs: Some(regs), pokes: vec![], inputs: [rng.u8(), rng.u8(), rng.u8(), rng.u8()], asm_mode: false }
+    Setup { image: Image { bytes, stack: 0, limit: Some(0xFF), keep_limit: false }, regs: Some(regs), pokes: vec![], inputs, asm_mode: false }
 }
